@@ -402,12 +402,13 @@ GATE_CONFIGS = {
     # name: (Pipeline, NW, LK, HK, Items definition in MCTraceParAgg)
     'paror_w1_k3': ('ParOr', 1, 0, 2, 'I0'), 'paror_w2_k5': ('ParOr', 2, 3, 7, 'I0'), 'paror_w3_k4': ('ParOr', 3, 1, 4, 'I0'),
     'paror_w1_k9': ('ParOr', 1, 0, 8, 'I0'),
+    'paror64_w2_k4': ('ParOr', 2, 2, 5, 'I0'), 'paror64_w1_k6': ('ParOr', 1, 0, 5, 'I0'),
     'heapor_w2_i3': ('Heap', 2, 0, 3, 'I3'), 'heapor_w1_i5': ('Heap', 1, 0, 3, 'I5'), 'heapor_w3_i4': ('Heap', 3, 0, 3, 'I4m'),
     'parand_w2_i4': ('Heap', 2, 0, 3, 'I4m'), 'parand_w1_i0': ('Heap', 1, 0, 3, 'I0'), 'parand_w3_i2': ('Heap', 3, 0, 3, 'I2m'),
 }
 
 
-WALK_QUICK = ['paror_w1_k3', 'paror_w2_k5', 'heapor_w2_i3', 'heapor_w1_i5', 'parand_w1_i0', 'parand_w3_i2']
+WALK_QUICK = ['paror_w1_k3', 'paror_w2_k5', 'paror64_w2_k4', 'paror64_w1_k6', 'heapor_w2_i3', 'heapor_w1_i5', 'parand_w1_i0', 'parand_w3_i2']
 WALK_THOROUGH = sorted(GATE_CONFIGS)
 
 
